@@ -60,8 +60,8 @@ Value builtin_str_substring(Value *args) {
     long long str_len = nl_cstr_length(str);
 
     if (start < 0 || start > str_len) {
-        fprintf(stderr, "Error: str_substring start index out of bounds\n");
-        return create_void();
+        /* docs/STDLIB.md: "I return an empty string if start is out of bounds" (as the compiled program and the VM do) */
+        return create_string("");
     }
 
     if (length < 0) {
@@ -70,11 +70,8 @@ Value builtin_str_substring(Value *args) {
     }
 
     if (start == str_len) {
-        if (length == 0) {
-            return create_string("");
-        }
-        fprintf(stderr, "Error: str_substring start index out of bounds\n");
-        return create_void();
+        /* nothing left to take: the documented result is "until the end of the string", i.e. "" */
+        return create_string("");
     }
 
     char *result = nl_cstr_substring(str, start, length);
